@@ -232,7 +232,8 @@ Theorem C19_e2e_errflag : forall excl fw_recv handler b_chan e,
 Proof. exact final_err. Qed.
 Print Assumptions C19_e2e_errflag.
 Theorem C19_e2e_value : forall excl fw_recv handler b_chan e r,
-  fw_recv (ev1 excl e) = true -> handler (ev2 excl b_chan e) = HVal r ->
+  fw_recv (ev1 excl e) = true ->
+  handler (ev2 excl b_chan e) = HVal r \/ handler (ev2 excl b_chan e) = HValLate r ->
   oval excl fw_recv handler b_chan e = r /\ oerr excl fw_recv handler b_chan e = false.
 Proof. exact oval_val. Qed.
 Print Assumptions C19_e2e_value.
